@@ -490,3 +490,86 @@ def cache_type_flag_rule(rep, u, fname="dns_rslvr_cache_entry_data_add"):
                                           "cache_entry->flags is overwritten with the flags of the empty answer while pdata / data_count stay: 'x CNAME y' (ttl 1), then NXDOMAIN on "
                                           "refresh, then a lookup copies six 26-byte records out of the 8-byte alias block" if bad else "")
     return 1
+
+
+
+def sdp_high_byte_rule(rep, u, fname="sdp_msg_sec_chk"):
+    """the byte scan of the SDP check refuses what its own rule 3 lists: a byte above 126 reaches the refusing return (the test
+    stood behind `> 31 -> continue` and was dead code).  The loop body is evaluated for the bytes 0x7f, 0x80, 0xff and 'a'."""
+    from rules import r_mpt
+    fn = u.fn(fname)
+    if fn is None or not fn.has_cfg:
+        raise driver.AnalysisBroken("anchor %s vanished" % fname)
+    rep.functions.add(fname)
+    loops = fn.loops()
+    heads = [h for h, b in loops.items() if any(x.get("k") == "un" and x.get("op") == "*" for bb in b for e in fn.blocks[bb].elems for x, _ in walk(e))]
+    if not heads:
+        raise driver.AnalysisBroken("%s: scan loop not found" % fname)
+    h = heads[-1]
+    body = loops[h]
+    first = [s_ for s_ in fn.blocks[h].succ if s_ in body][0]
+    n = 0
+    for byte, refused in ((0x7f, True), (0x80, True), (0xff, True), (0x61, False)):
+        b = first
+        verdict = None
+        for _step in range(40):
+            blk = fn.blocks[b]
+            rets = [e for e in blk.elems if e.get("k") == "ret"]
+            if rets:
+                verdict = ("ret", const_val(rets[-1].get("e") or {}))
+                break
+            if b == h and _step:
+                verdict = ("continue", None)
+                break
+            c = blk.cond
+            if c is None or len(blk.succ) != 2:
+                nxt = [s_ for s_ in blk.rsucc() if s_ is not None]
+                if len(nxt) != 1:
+                    break
+                b = nxt[0]
+                continue
+            atoms = [y for y, _ in _walk(c) if y.get("k") == "un" and y["op"] == "*"]
+            try:
+                v = r_mpt.eval_expr(c, {id(a): byte for a in atoms})
+            except r_mpt.Unknown:
+                break
+            b = blk.succ[0] if v else blk.succ[1]
+        n += 1
+        inst = "byte-0x%02x" % byte
+        desc = "%s: byte 0x%02x is %s" % (fname, byte, "refused" if refused else "passed")
+        if verdict is None:
+            rep.undecided("R-CLASS", fn, inst, desc, "not evaluated")
+        elif refused == (verdict[0] == "ret" and verdict[1] not in (None, 0)):
+            rep.proved("R-CLASS", fn, inst, desc, str(verdict))
+        else:
+            rep.violated("R-CLASS", fn, inst, desc, "%s: the `> 126` test stands behind `> 31 -> continue` and never runs; DEL and every byte above it pass" % (verdict,))
+    return n
+
+
+def queued_task_rule(rep, u, fname="dns_resolver_recv_cb"):
+    """a reply is matched to a task by its 16-bit id alone; a task queued behind another lookup of the same name has no cache
+    entry yet (nothing was sent under its id): task->cache_entry is tested before it is followed"""
+    fn = u.fn(fname)
+    if fn is None or not fn.has_cfg:
+        raise driver.AnalysisBroken("anchor %s vanished" % fname)
+    rep.functions.add(fname)
+    derefs = [pos for pos, root, x, ps in fn.nodes() if x.get("k") == "mem" and x.get("arrow") and core.strip_casts(x["b"]).get("k") == "mem" and core.strip_casts(x["b"])["f"] == "cache_entry"
+              and key(core.strip_casts(x["b"])).startswith("task->")]
+    if not derefs:
+        raise driver.AnalysisBroken("%s: uses of task->cache_entry not found" % fname)
+    tests = []
+    for bid in fn.reachable_blocks():
+        c = fn.blocks[bid].cond
+        if c is None:
+            continue
+        for y, _ in walk(c):
+            if y.get("k") == "bin" and y["op"] in ("==", "!=") and any(core.strip_casts(y[k_]).get("k") == "mem" and core.strip_casts(y[k_])["f"] == "cache_entry" and
+                                                                         not core.strip_casts(y[k_]).get("x") for k_ in ("x", "y")):
+                if "task->cache_entry" in key(y) and "cache_entry->" not in key(y):
+                    tests.append(bid)
+    ok = bool(tests) and all(any(fn.dominates(t_, d_[0]) and t_ != d_[0] for t_ in tests) for d_ in derefs)
+    desc = "%s: task->cache_entry is compared with NULL before it is dereferenced" % fname
+    (rep.proved if ok else rep.violated)("R-NULLQ", fn, "queued-task-has-no-entry", desc, "%d uses behind the test" % len(derefs) if ok else
+                                         "two lookups of one name: the second task is queued with cache_entry = NULL but stays findable by id; a reply carrying that id is a NULL "
+                                         "dereference in the receive path")
+    return 1
